@@ -20,6 +20,7 @@
 #include "base/statsfunction.hpp"
 #include "base/loader.hpp"
 #include <fstream>
+#include <mutex>
 
 using namespace icinga;
 
@@ -161,6 +162,13 @@ static void PersistModAttrHelper(AtomicFile& fp, ConfigObject::Ptr& previousObje
 
 void IcingaApplication::DumpProgramState()
 {
+	/* The retention timer's callback and OnShutdown() may get here at the same time (OnShutdown() stops the timer
+	 * without waiting for a callback that has already been dispatched). Two dumps running side by side remove each
+	 * other's temporary files (see the Glob() calls in DumpObjects() / DumpModifiedAttributes()), so one of them
+	 * fails on rename - possibly the final one. The later caller waits and then dumps. */
+	static std::mutex mutex;
+	std::unique_lock<std::mutex> lock (mutex);
+
 	ConfigObject::DumpObjects(Configuration::StatePath);
 	DumpModifiedAttributes();
 }
